@@ -153,7 +153,9 @@ StrContains(s, sub) == \E i \in 1..(Len(s) - Len(sub) + 1) : SubSeq(s, i, i + Le
 RECURSIVE IsPow2(_), FracDigits(_, _)
 IsPow2(d) == d = 1 \/ (d % 2 = 0 /\ IsPow2(d \div 2))
 FracDigits(r, d) == IF r = 0 THEN <<>> ELSE <<Digits[((r * 10) \div d) + 1]>> \o FracDigits((r * 10) % d, d)
-FloatStrOK(v) == IsPow2(v.d) /\ v.d <= 8192 /\ Abs(v.n) <= 100000000       \* plain (non-exponent) %g form, no overflow in FracDigits
+\* plain (non-exponent) %g form, no overflow in FracDigits; a float ZERO is excluded because IEEE has a negative
+\* zero (-1.5 * 0 prints as "-0") that exact rationals cannot tell apart: such a case is dropped at that line
+FloatStrOK(v) == IsPow2(v.d) /\ v.d <= 8192 /\ Abs(v.n) <= 100000000 /\ v.n # 0
 FloatToStr(v) == LET a == Abs(v.n)  ip == a \div v.d  r == a % v.d IN
                  (IF v.n < 0 THEN <<"-">> ELSE <<>>) \o IntToStr(ip) \o (IF r = 0 THEN <<>> ELSE <<".">> \o FracDigits(r, v.d))
 ToStr(v) == CASE v.k = "s" -> v.v
